@@ -107,7 +107,7 @@ def build_cases(c, faults=0.0):
                           'origin': 'exhaustive%d(%d of %d)' % (nprop, len(charts), total)})
             nex += 1
     fam = region_family()
-    stride = 5 if quick else 1
+    stride = 2 if quick else 1
     off = c.seed % stride
     nfam = 0
     for i, t in enumerate(fam):
